@@ -234,21 +234,21 @@ def typeNameP : Nat → P TypeName
 
 /-! ### repetition with implicit whitespace -/
 
+/-- `(skip ~ e)*`: further repetitions; white space is only consumed together with a match. -/
+def manyTail {α : Type} (p : P α) : Nat → Str → List α × Str
+  | 0, r => ([], r)
+  | f + 1, r =>
+    match p (skipWs r) with
+    | none => ([], r)
+    | some (a, r') => ((manyTail p f r').1.cons a, (manyTail p f r').2)
+
 /-- `e*` in a normal rule: `e ~ (skip ~ e)*`, giving nothing back. -/
 def many {α : Type} (p : P α) : Nat → Str → List α × Str
   | 0, cs => ([], cs)
   | fuel + 1, cs =>
     match p cs with
     | none => ([], cs)
-    | some (a, r) =>
-      let rec loop : Nat → Str → List α × Str
-        | 0, r => ([], r)
-        | f + 1, r =>
-          match p (skipWs r) with
-          | none => ([], r)
-          | some (a, r') => let (as, r'') := loop f r'; (a :: as, r'')
-      let (as, r') := loop fuel r
-      (a :: as, r')
+    | some (a, r) => ((manyTail p fuel r).1.cons a, (manyTail p fuel r).2)
 
 /-! ### preludes -/
 
@@ -258,19 +258,29 @@ inductive PreItem where
   | attr (a : Attribute)
   deriving Inhabited
 
+/-- `tok_comma ~ ident` -/
+def commaIdentP : P Str := fun cs =>
+  match kw (chars! ",") cs with
+  | none => none
+  | some ((), r) => identP (skipWs r)
+
+/-- `tok_par_open ~ ident ~ (tok_comma ~ ident)* ~ tok_comma? ~ tok_par_close` -/
+def attrOptionsInnerP (fuel : Nat) : P (List Str) := fun cs =>
+  match tok (chars! "(") cs with
+  | none => none
+  | some ((), r) =>
+    match identP (skipWs r) with
+    | none => none
+    | some (a, r) =>
+      let m := many commaIdentP fuel (skipWs r)
+      let r := match tok (chars! ",") m.2 with | some ((), r) => r | none => m.2
+      match tok (chars! ")") r with
+      | none => none
+      | some ((), r) => some (a :: m.1, r)
+
 /-- `(tok_par_open ~ ident ~ (tok_comma ~ ident)* ~ tok_comma? ~ tok_par_close)?` -/
 def attrOptionsP (fuel : Nat) : P (List Str) := fun cs =>
-  match (do
-    let ((), r) ← tok (chars! "(") cs
-    let (a, r) ← identP (skipWs r)
-    let (more, r) := many (fun cs => do
-      let ((), r) ← kw (chars! ",") cs
-      let (b, r) ← identP (skipWs r)
-      pure (b, r)) fuel (skipWs r)
-    -- `many` starts where the next element starts; when it matched nothing the position is unchanged
-    let r := match tok (chars! ",") r with | some ((), r) => r | none => r
-    let ((), r) ← tok (chars! ")") r
-    pure (a :: more, r)) with
+  match attrOptionsInnerP fuel cs with
   | some x => some x
   | none => some ([], cs)
 
@@ -298,8 +308,7 @@ def preAttrs (l : List PreItem) : List Attribute := l.filterMap (fun | .attr c =
 
 /-- `(comment | doc_string | attribute)*` followed by the implicit whitespace before the next element. -/
 def preludeP (comments docs attrs : Bool) (fuel : Nat) (cs : Str) : List PreItem × Str :=
-  let (items, r) := many (preItemP comments docs attrs fuel) fuel cs
-  (items, skipWs r)
+  ((many (preItemP comments docs attrs fuel) fuel cs).1, skipWs (many (preItemP comments docs attrs fuel) fuel cs).2)
 
 def inlinePreItemP (fuel : Nat) : P PreItem := fun cs =>
   match docInlineP cs with
@@ -308,94 +317,171 @@ def inlinePreItemP (fuel : Nat) : P PreItem := fun cs =>
 
 /-! ### structs and enums -/
 
+/-- `(kw_required ~ &ident)?`: the keyword only when an identifier follows. -/
+def requiredP (r : Str) : Bool × Str :=
+  match kwWs (chars! "required") r with
+  | some ((), r') => if (identP (skipWs r')).isSome then (true, skipWs r') else (false, r)
+  | none => (false, r)
+
+/-- `ident ~ tok_at ~ lit_int` -/
+def nameIdP : P (Str × Str) := fun r =>
+  match identP r with
+  | none => none
+  | some (name, r) =>
+    match tok (chars! "@") r with
+    | none => none
+    | some ((), r) =>
+      match litIntP (skipWs r) with
+      | none => none
+      | some (id, r) => some ((name, id), r)
+
+/-- `tok_eq ~ type_name` -/
+def eqTypeP (fuel : Nat) : P TypeName := fun r =>
+  match tok (chars! "=") r with
+  | none => none
+  | some ((), r) => typeNameP fuel (skipWs r)
+
 /-- `struct_field` -/
-def structFieldP (fuel : Nat) : P StructField := fun cs => do
-  let (pre, r) := preludeP true true false fuel cs
-  -- `(kw_required ~ &ident)?`: the keyword only when an identifier follows
-  let (req, r) := match kwWs (chars! "required") r with
-    | some ((), r') => if (identP (skipWs r')).isSome then (true, skipWs r') else (false, r)
-    | none => (false, r)
-  let (name, r) ← identP r
-  let ((), r) ← tok (chars! "@") r
-  let (id, r) ← litIntP (skipWs r)
-  let ((), r) ← tok (chars! "=") r
-  let (ty, r) ← typeNameP fuel (skipWs r)
-  let ((), r) ← tok (chars! ";") r
-  pure ({ comment := preComments pre, doc := preDocs pre, required := req, name := name, id := id, ty := ty }, r)
+def structFieldP (fuel : Nat) : P StructField := fun cs =>
+  let pre := preludeP true true false fuel cs
+  let rq := requiredP pre.2
+  match nameIdP rq.2 with
+  | none => none
+  | some ((name, id), r) =>
+    match eqTypeP fuel r with
+    | none => none
+    | some (ty, r) =>
+      match tok (chars! ";") r with
+      | none => none
+      | some ((), r) =>
+        some ({ comment := preComments pre.1, doc := preDocs pre.1, required := rq.1, name := name, id := id, ty := ty }, r)
+
+/-- `ident ~ tok_eq ~ kw_fallback ~ tok_term` -/
+def fallbackTailP : P Str := fun r =>
+  match identP r with
+  | none => none
+  | some (name, r) =>
+    match tok (chars! "=") r with
+    | none => none
+    | some ((), r) =>
+      match tok (chars! "fallback") r with
+      | none => none
+      | some ((), r) =>
+        match tok (chars! ";") r with
+        | none => none
+        | some ((), r) => some (name, r)
 
 /-- `struct_fallback`, `enum_fallback`: `(comment | doc_string)* ~ ident ~ tok_eq ~ kw_fallback ~ tok_term` -/
-def fallbackP (fuel : Nat) : P Fallback := fun cs => do
-  let (pre, r) := preludeP true true false fuel cs
-  let (name, r) ← identP r
-  let ((), r) ← tok (chars! "=") r
-  let ((), r) ← tok (chars! "fallback") r
-  let ((), r) ← tok (chars! ";") r
-  pure ({ comment := preComments pre, doc := preDocs pre, name := name }, r)
+def fallbackP (fuel : Nat) : P Fallback := fun cs =>
+  let pre := preludeP true true false fuel cs
+  match fallbackTailP pre.2 with
+  | none => none
+  | some (name, r) => some ({ comment := preComments pre.1, doc := preDocs pre.1, name := name }, r)
 
-def enumVariantP (fuel : Nat) : P EnumVariant := fun cs => do
-  let (pre, r) := preludeP true true false fuel cs
-  let (name, r) ← identP r
-  let ((), r) ← tok (chars! "@") r
-  let (id, r) ← litIntP (skipWs r)
-  let (ty, r) := match (do
-      let ((), r) ← tok (chars! "=") r
-      typeNameP fuel (skipWs r)) with
-    | some (t, r) => (some t, r)
-    | none => (none, r)
-  let ((), r) ← tok (chars! ";") r
-  pure ({ comment := preComments pre, doc := preDocs pre, name := name, id := id, ty := ty }, r)
+def enumVariantP (fuel : Nat) : P EnumVariant := fun cs =>
+  let pre := preludeP true true false fuel cs
+  match nameIdP pre.2 with
+  | none => none
+  | some ((name, id), r) =>
+    -- `(tok_eq ~ type_name)?`
+    let ty : Option TypeName × Str := match eqTypeP fuel r with
+      | some (t, r') => (some t, r')
+      | none => (none, r)
+    match tok (chars! ";") ty.2 with
+    | none => none
+    | some ((), r) =>
+      some ({ comment := preComments pre.1, doc := preDocs pre.1, name := name, id := id, ty := ty.1 }, r)
 
 /-- `e* ~ f? ~ tok_cur_close` for the body of a struct or enum, starting after `{` and its whitespace. -/
-def bodyP {α : Type} (item : Nat → P α) (fuel : Nat) : P (List α × Option Fallback) := fun cs => do
-  let (items, r) := many (item fuel) fuel cs
-  let r := skipWs r
-  let (fb, r) := match fallbackP fuel r with | some (f, r) => (some f, r) | none => (none, r)
-  let ((), r) ← tok (chars! "}") r
-  pure ((items, fb), r)
+def bodyP {α : Type} (item : Nat → P α) (fuel : Nat) : P (List α × Option Fallback) := fun cs =>
+  let m := many (item fuel) fuel cs
+  let fb : Option Fallback × Str := match fallbackP fuel (skipWs m.2) with
+    | some (f, r) => (some f, r)
+    | none => (none, skipWs m.2)
+  match tok (chars! "}") fb.2 with
+  | none => none
+  | some ((), r) => some ((m.1, fb.1), r)
 
-def inlineStructP (fuel : Nat) : P InlineStruct := fun cs => do
-  let ((), r) ← kwWs (chars! "struct") cs
-  let ((), r) ← tok (chars! "{") r
-  let (pre, r) := many (inlinePreItemP fuel) fuel (skipWs r)
-  let ((fields, fb), r) ← bodyP structFieldP fuel (skipWs r)
-  pure ({ doc := preDocs pre, attrs := preAttrs pre, fields := fields, fallback := fb }, r)
+/-- `kw ~ ident` for the keywords that demand `&ws`. -/
+def headerP (k : Str) : P Str := fun cs =>
+  match kwWs k cs with
+  | none => none
+  | some ((), r) => identP (skipWs r)
 
-def inlineEnumP (fuel : Nat) : P InlineEnum := fun cs => do
-  let ((), r) ← kwWs (chars! "enum") cs
-  let ((), r) ← tok (chars! "{") r
-  let (pre, r) := many (inlinePreItemP fuel) fuel (skipWs r)
-  let ((vars, fb), r) ← bodyP enumVariantP fuel (skipWs r)
-  pure ({ doc := preDocs pre, attrs := preAttrs pre, variants := vars, fallback := fb }, r)
+/-- `kw_struct ~ tok_cur_open ~ (doc_string_inline | attribute_inline)*` and the white space before the body. -/
+def inlineOpenP (k : Str) (fuel : Nat) : P (List PreItem) := fun cs =>
+  match kwWs k cs with
+  | none => none
+  | some ((), r) =>
+    match tok (chars! "{") r with
+    | none => none
+    | some ((), r) =>
+      some ((many (inlinePreItemP fuel) fuel (skipWs r)).1, skipWs (many (inlinePreItemP fuel) fuel (skipWs r)).2)
+
+def inlineStructP (fuel : Nat) : P InlineStruct := fun cs =>
+  match inlineOpenP (chars! "struct") fuel cs with
+  | none => none
+  | some (pre, r) =>
+    match bodyP structFieldP fuel r with
+    | none => none
+    | some ((fields, fb), r) => some ({ doc := preDocs pre, attrs := preAttrs pre, fields := fields, fallback := fb }, r)
+
+def inlineEnumP (fuel : Nat) : P InlineEnum := fun cs =>
+  match inlineOpenP (chars! "enum") fuel cs with
+  | none => none
+  | some (pre, r) =>
+    match bodyP enumVariantP fuel r with
+    | none => none
+    | some ((vars, fb), r) => some ({ doc := preDocs pre, attrs := preAttrs pre, variants := vars, fallback := fb }, r)
+
+/-- `type_name ~ tok_term` -/
+def typeTermP (fuel : Nat) : P TypeName := fun cs =>
+  match typeNameP fuel cs with
+  | none => none
+  | some (t, r) =>
+    match tok (chars! ";") r with
+    | none => none
+    | some ((), r) => some (t, r)
 
 /-- `type_name_or_inline = { (type_name ~ tok_term) | struct_inline | enum_inline }` -/
 def typeOrInlineP (fuel : Nat) : P TypeOrInline := fun cs =>
-  match (do
-    let (t, r) ← typeNameP fuel cs
-    let ((), r) ← tok (chars! ";") r
-    pure (TypeOrInline.ty t, r)) with
-  | some x => some x
+  match typeTermP fuel cs with
+  | some (t, r) => some (.ty t, r)
   | none =>
     match inlineStructP fuel cs with
     | some (s, r) => some (.struct s, r)
     | none => (inlineEnumP fuel cs).map (fun (e, r) => (.enum e, r))
 
-def structDefP (fuel : Nat) : P StructDef := fun cs => do
-  let (pre, r) := preludeP true true true fuel cs
-  let ((), r) ← kwWs (chars! "struct") r
-  let (name, r) ← identP (skipWs r)
-  let ((), r) ← tok (chars! "{") r
-  let ((fields, fb), r) ← bodyP structFieldP fuel (skipWs r)
-  pure ({ comment := preComments pre, doc := preDocs pre, attrs := preAttrs pre, name := name, fields := fields,
-          fallback := fb }, r)
+/-- `kw ~ ident ~ tok_cur_open` and the white space before the body. -/
+def defOpenP (k : Str) : P Str := fun cs =>
+  match headerP k cs with
+  | none => none
+  | some (name, r) =>
+    match tok (chars! "{") r with
+    | none => none
+    | some ((), r) => some (name, skipWs r)
 
-def enumDefP (fuel : Nat) : P EnumDef := fun cs => do
-  let (pre, r) := preludeP true true true fuel cs
-  let ((), r) ← kwWs (chars! "enum") r
-  let (name, r) ← identP (skipWs r)
-  let ((), r) ← tok (chars! "{") r
-  let ((vars, fb), r) ← bodyP enumVariantP fuel (skipWs r)
-  pure ({ comment := preComments pre, doc := preDocs pre, attrs := preAttrs pre, name := name, variants := vars,
-          fallback := fb }, r)
+def structDefP (fuel : Nat) : P StructDef := fun cs =>
+  let pre := preludeP true true true fuel cs
+  match defOpenP (chars! "struct") pre.2 with
+  | none => none
+  | some (name, r) =>
+    match bodyP structFieldP fuel r with
+    | none => none
+    | some ((fields, fb), r) =>
+      some ({ comment := preComments pre.1, doc := preDocs pre.1, attrs := preAttrs pre.1, name := name, fields := fields,
+              fallback := fb }, r)
+
+def enumDefP (fuel : Nat) : P EnumDef := fun cs =>
+  let pre := preludeP true true true fuel cs
+  match defOpenP (chars! "enum") pre.2 with
+  | none => none
+  | some (name, r) =>
+    match bodyP enumVariantP fuel r with
+    | none => none
+    | some ((vars, fb), r) =>
+      some ({ comment := preComments pre.1, doc := preDocs pre.1, attrs := preAttrs pre.1, name := name, variants := vars,
+              fallback := fb }, r)
 
 /-! ### services -/
 
